@@ -20,7 +20,7 @@ ASSUMPTIONS = [
 NSHARDS = {"quick": 64, "thorough": 128}
 BUDGET_S = {"quick": 240, "thorough": 2400}
 MIN_HITS = {
-    'quick': {"program": 147235, "exh": 145893, "cond": 230, "random": 960, "ref_ok": 126303, "ref_fail": 20882, "op_148": 4302, "op_153": 218, "op_128": 328, "op_113": 44, "op_100": 460},
+    'quick': {"program": 149629, "exh": 148287, "cond": 230, "random": 960, "ref_ok": 126370, "ref_fail": 22709, "op_148": 4302, "op_153": 433, "op_128": 514, "op_113": 44, "op_100": 460},
     'thorough': {"program": 635442, "exh": 174001, "cond": 276, "random": 460800, "ref_ok": 432046, "ref_fail": 203287, "op_148": 44818, "op_153": 27109, "op_128": 20564, "op_113": 22517, "op_100": 152315},
 }
 
